@@ -709,17 +709,18 @@ class Harness:
                 saw_miss = True
             if record:
                 ctx.count("ev:" + ev)
-            if diag:
+            if diag and matched.outcome[0] == "ok":
+                # after a successful load its key must be resident; if it is not, but a
+                # key differing only by the namespace prefix is, the key was derived wrongly
                 rk = {str(x) for x in loader.cache.keys()}
-                mk = set(model.od)
-                if rk != mk:
-                    rc = _key_disagreement(rk - mk, mk - rk)
+                if key not in rk:
+                    rc = _key_disagreement(key, rk)
                     if rc is not None:
                         return Divergence(
                             i, rc, f"after {ref.show_op(op)} the cache holds {sorted(rk)} "
-                                   f"where the reference holds {sorted(mk)}",
+                                   f"but not the key {key!r} of this load",
                             {"step": i, "op": ref.show_op(op), "real_cache_keys": sorted(rk),
-                             "model_keys": sorted(mk)})
+                             "model_keys": sorted(model.od)})
             if clen > cap:
                 return Divergence(i, "capacity-exceeded",
                                   f"len(loader.cache)={clen} > capacity={cap}", {
@@ -923,12 +924,12 @@ class Harness:
         return key
 
 
-def _key_disagreement(extra_real: set[str], extra_model: set[str]) -> str | None:
-    """Name a disagreement about how cache keys are derived (None: the key sets differ
-    for another reason, e.g. eviction order — the behavioural symptom names that)."""
-    if any(m.endswith("/" + r) for r in extra_real for m in extra_model):
+def _key_disagreement(key: str, real_keys: set[str]) -> str | None:
+    """Name a disagreement about how the cache key of a load is derived (None: the key
+    is missing for another reason — the behavioural symptom names that)."""
+    if any(key.endswith("/" + r) for r in real_keys):
         return "cache-key-without-namespace"
-    if any(r.endswith("/" + m) for r in extra_real for m in extra_model):
+    if any(r.endswith("/" + key) for r in real_keys):
         return "cache-key-with-spurious-namespace"
     return None
 
